@@ -3,7 +3,7 @@
    of a failing filter), for every budget larger than the number of actions of the run. *)
 From Coq Require Import List ZArith String Bool PArith Lia FMapPositive.
 From TP Require Import Json PyPrim Machine Spec.
-From TP.proofs Require Import RefineBase Refine NextLayer Iterate.
+From TP.proofs Require Import RefineBase Refine NextLayer Iterate WfRun.
 Import ListNotations.
 Close Scope Z_scope.
 Open Scope list_scope.
@@ -45,7 +45,7 @@ Definition answer : rs := sem P sev 0 vp (pmc tr) (abs (root_match src)).
 (* the iterator delivered the complete answer *)
 Definition complete (d : list (@outcome json * list jevent)) : Prop :=
   exists ms,
-    map abs ms = sresults (fst answer) /\
+    map abs ms = sresults (fst answer) /\ Forall wf ms /\
     outcomes d = map (fun m => OResult m) ms ++
                  [ORaise (match snd answer with None => EStop | Some e => e end)] /\
     map abs_ev (all_events d) = proj (tracing tr) (fst answer) /\
@@ -54,8 +54,9 @@ Definition complete (d : list (@outcome json * list jevent)) : Prop :=
 (* the iterator delivered a prefix of the answer and then a budget exception raised inside a filter *)
 Definition sound_prefix (d : list (@outcome json * list jevent)) : Prop :=
   exists ms e pre suf,
-    fst answer = pre ++ suf /\ map abs ms = sresults pre /\
+    fst answer = pre ++ suf /\ map abs ms = sresults pre /\ Forall wf ms /\
     outcomes d = map (fun m => OResult m) ms ++ [ORaise e] /\ budget_exn e = true /\
+    (exists z1 z2 ev2, step jshape P ev src vp tr z1 = SRaise e z2 ev2) /\
     Forall lazy_item d.
 
 (* The whole life of the iterator.  k is the number of actions of the run (it exists for every finite
@@ -78,7 +79,8 @@ Proof.
       { rewrite <- (sresults_proj (tracing tr)), <- Hev, sresults_abs, ev_results_app, Hr2, app_nil_r. reflexivity. }
       assert (Hlen : List.length (ev_results evs) < fuel) by (rewrite <- (map_length abs), Hres; exact Hfuel).
       destruct (drain_run P ev src vp tr ev_quiet B k init_state evs z1 e z2 ev2 fuel Hrun Hs HB Hlen) as (Ho & He & Hl).
-      split; [exact Hres|]. split; [exact Ho|]. split; [unfold d; rewrite He; exact Hev | exact Hl].
+      split; [exact Hres|]. split; [exact (proj2 (wf_run P ev src vp tr Hsrc ev_quiet k _ _ _ (wfz_init) Hrun))|].
+      split; [exact Ho|]. split; [unfold d; rewrite He; exact Hev | exact Hl].
     + destruct Href as (k & z' & evs & Hrun & Hev & Hpc & Hstop).
       exists k. intros B fuel HB Hfuel d. left. unfold complete. rewrite Hex.
       exists (ev_results evs).
@@ -86,7 +88,8 @@ Proof.
       { rewrite <- (sresults_proj (tracing tr)), <- Hev, sresults_abs. reflexivity. }
       assert (Hlen : List.length (ev_results evs) < fuel) by (rewrite <- (map_length abs), Hres; exact Hfuel).
       destruct (drain_run P ev src vp tr ev_quiet B k init_state evs z' EStop z' [] fuel Hrun Hstop HB Hlen) as (Ho & He & Hl).
-      split; [exact Hres|]. split; [exact Ho|]. split; [unfold d; rewrite He, app_nil_r; exact Hev | exact Hl].
+      split; [exact Hres|]. split; [exact (proj2 (wf_run P ev src vp tr Hsrc ev_quiet k _ _ _ (wfz_init) Hrun))|].
+      split; [exact Ho|]. split; [unfold d; rewrite He, app_nil_r; exact Hev | exact Hl].
   - destruct Href as (k & z1 & evs & z2 & e & ev2 & pre & suf & Hrun & Hs & Hbe & Hfst & Hev).
     exists k. intros B fuel HB Hfuel d. right.
     exists (ev_results evs), e, pre, suf.
@@ -98,7 +101,8 @@ Proof.
         by (rewrite Hfst, sresults_app, app_length; reflexivity).
       rewrite E1. rewrite E2 in Hfuel. clear -Hfuel. lia. }
     destruct (drain_run P ev src vp tr ev_quiet B k init_state evs z1 e z2 ev2 fuel Hrun Hs HB Hlen) as (Ho & He & Hl).
-    split; [exact Hfst|]. split; [exact Hres|]. split; [exact Ho|]. split; [exact Hbe | exact Hl].
+    split; [exact Hfst|]. split; [exact Hres|]. split; [exact (proj2 (wf_run P ev src vp tr Hsrc ev_quiet k _ _ _ (wfz_init) Hrun))|].
+    split; [exact Ho|]. split; [exact Hbe|]. split; [exists z1, z2, ev2; exact Hs | exact Hl].
 Qed.
 
 End Query.
